@@ -1,0 +1,36 @@
+//go:build verif
+
+// Contracts for package util (HTTP provider helpers), checked by /verif/govc. Comment-only: no code.
+package util
+
+// A header line is "[key: value]"; anything else is a format error, never a fault.
+//@ func DecodeHeader
+//@ props C13 C07 C09
+//@ modifies nothing
+//@ ensures [needs-brackets] imp(len(h0) < 3 || h0[0] != '[' || h0[len(h0)-1] != ']', err == ErrHeaderFormat)
+//@ ensures [needs-colon] imp(calls(strings.Cut) == 1 && !result_of(strings.Cut, 2), err == ErrHeaderFormat)
+//@ ensures [key-is-trimmed-text-before-colon] imp(err == nil, key == strings.TrimSpace(result_of(strings.Cut, 0)) && len(key) > 0)
+//@ ensures [value-is-trimmed-text-after-colon] imp(err == nil, value == strings.TrimSpace(result_of(strings.Cut, 1)))
+//@ at call strings.Cut assert [inside-the-brackets] arg(a0) == h0[1:len(h0)-1] && arg(a1) == ":"
+
+//@ func DecodeHTTPConfigHeaders
+//@ props C13 C09
+//@ ensures [fresh-map] fresh(configHTTPHeaders) && configHTTPHeaders != nil
+//@ loop 0 invariant err == nil && imp(calls(DecodeHeader) > 0, result_of(DecodeHeader, 2) == nil) && configHTTPHeaders != nil && fresh(configHTTPHeaders)
+//@ ensures [bad-line-is-an-error] imp(calls(DecodeHeader) > 0 && result_of(DecodeHeader, 2) != nil, err == result_of(DecodeHeader, 2))
+//@ ensures [good-lines-give-no-error] imp(calls(DecodeHeader) == 0 || result_of(DecodeHeader, 2) == nil, err == nil)
+//@ at call configHTTPHeaders.Add assert [decoded-pair] arg(a0) == result_of(DecodeHeader, 0) && arg(a1) == result_of(DecodeHeader, 1)
+
+// Configured headers are added only where the request does not define the header; Host only when the request has none.
+//@ func EnrichRequestWithHeaders
+//@ props C09
+//@ requires req.Header != headers && req.Header != nil
+//@ env [header-values-are-non-empty-lists] forall_t(q, string, imp(has(headers, q), len(headers[q]) >= 1))
+//@ loop 0 invariant [request-headers-kept] forall_t(q, string, imp(old(has(req.Header, q)), has(req.Header, q) && req.Header[q] == old(req.Header[q])))
+//@ loop 0 invariant [host-kept-if-set] imp(old(req.Host) != "", req.Host == old(req.Host))
+//@ loop 0 invariant [nothing-else-touched] req.Method == old(req.Method) && req.URL == old(req.URL) && req.Body == old(req.Body)
+//@ ensures [request-headers-kept] forall_t(q, string, imp(old(has(req.Header, q)), has(req.Header, q) && req.Header[q] == old(req.Header[q])))
+//@ ensures [host-kept-if-set] imp(old(req.Host) != "", req.Host == old(req.Host))
+//@ loop 0 step [configured-header-added-when-absent] imp(!iter(has(req.Header, canon(rangekey))) && canon(rangekey) != "Host", has(req.Header, canon(rangekey)) && req.Header[canon(rangekey)] == headers[rangekey])
+//@ loop 0 step [configured-host-used-when-request-has-none] imp(!iter(has(req.Header, canon(rangekey))) && canon(rangekey) == "Host" && iter(req.Host) == "", req.Host == headers[rangekey][0])
+//@ modifies elems(req.Header), req.Host
